@@ -346,6 +346,7 @@ def main(chk, replay_file):
     chk.extra["program_sources"] = info
     chk.jobs = jobs
     hv.run_jobs(jobs, chk.out)
+    call_stage(chk, xcmp)
     # verdict
     for j in jobs:
         r = j.result
@@ -378,6 +379,73 @@ def main(chk, replay_file):
         if j.kind == "known":
             j.kind = "known-split"
     return chk.finish()
+
+
+CALL_TEMPLATE = """val put = 1;
+%(decl)s
+var count;
+var v;
+func tick() is
+{ count := count + 1
+; put('t', 0)
+; return 1
+}
+func id(val a) is return a
+proc main() is
+  var r;
+{ %(init)s
+; count := 0
+; v := 7
+; r := %(expr)s
+; put('0' + count, 0)
+; 0((count + count + count + count) + (r + 8))
+}
+"""
+
+
+def call_stage(chk, xcmp):
+    """NATIVE stage (real xcmp + real hexsim, concrete programs): operands that are function calls -- out of reach of the
+    path-exploring back end -- with the constant supplied as a `val` or through a variable assigned at run time.  Output
+    (every call prints) and exit status must agree; in particular a call must not disappear because the other operand of a
+    logical operator is known at compile time."""
+    hexsim = os.path.join(chk.out, "hexsim_real")
+    hv.build_native(os.path.join(hv.REPO, "hexsim.cpp"), hexsim, extra=[os.path.join(hv.REPO, "hex.cpp")], opt="-O0", hooks=False)
+    exprs = []
+    for k in (0, 1):
+        exprs += [("tick() and c", k), ("c and tick()", k), ("tick() or c", k), ("c or tick()", k), ("1 + (tick() and c)", k), ("~(tick() or c)", k), ("(tick() and c) or tick()", k)]
+    for k in (0, 5, -3, 100, 70000):
+        exprs += [("c - id(v)", k), ("id(v) - c", k), ("c + id(v)", k), ("c < id(v)", k), ("id(v) < c", k), ("c >= id(v)", k), ("id(v) <= c", k), ("c > id(v) + tick()", k), ("(c + 1) - id(v)", k)]
+    bad, n, first = 0, 0, None
+    for i, (e, k) in enumerate(exprs):
+        outs = []
+        for mode in ("val", "var"):
+            src = CALL_TEMPLATE % {"decl": "val c = %s;" % lit(k) if mode == "val" else "var c;", "init": "count := 0" if mode == "val" else "c := %s" % lit(k), "expr": e}
+            d = os.path.join(chk.out, "calls", "%d.%s" % (i, mode))
+            os.makedirs(d, exist_ok=True)
+            open(os.path.join(d, "p.x"), "w").write(src)
+            rc, o, er, _ = hv.run([xcmp, "p.x"], cwd=d, timeout=60)
+            if rc != 0 or not os.path.exists(os.path.join(d, "a.out")):
+                outs.append(("xcmp failed", rc, (o + er)[-200:]))
+                continue
+            rc, o, er, _ = hv.run([hexsim, "a.out", "--max-cycles", "200000"], cwd=d, timeout=60)
+            outs.append((o, rc))
+        if any(x[0] == "xcmp failed" for x in outs):
+            if outs[0][0] != outs[1][0]:
+                pass   # one variant rejected, the other not: treated as a difference below
+            else:
+                continue   # both rejected (or crashed) alike: not this property's business
+        n += 1
+        if outs[0] != outs[1]:
+            bad += 1
+            if first is None:
+                first = {"expression": e, "constant": k, "as_val": list(outs[0]), "as_var": list(outs[1])}
+    rec = {"stage": "real xcmp + real hexsim on expressions whose operands are function calls (constant as `val` vs assigned variable): output and exit status compared", "programs": n, "differences": bad, "first": first}
+    chk.native.append(rec)
+    if bad:
+        p = chk.replay_path("native-calls")
+        json.dump({"property": PID, "obligation": "native call-operand stage", "real_code_result": first,
+                   "program_template": CALL_TEMPLATE, "how": "compile the template with `val c = K;` and with `var c; ... c := K`, run both on hexsim"}, open(p, "w"), indent=1)
+        chk.add_violation("native-calls", p, "`%s` with c = %d: constant as val gives %s, the same value in a variable gives %s" % (first["expression"], first["constant"], first["as_val"], first["as_var"]), True)
 
 
 def native_replay(chk, xcmp, d):
